@@ -106,12 +106,12 @@ func checkC15(c *Ctx) {
 	}
 	m := b.m
 	const G1, P1, O1, O2, D1, A1 = "C15.G1", "C15.P1", "C15.O1", "C15.O2", "C15.D1", "C15.A1"
-	c.Rule(G1, "limits dominate appends and bookkeeping creation", 3)
+	c.Rule(G1, "limits dominate appends and bookkeeping creation", 1)
 	c.Rule(P1, "shedding cannot fail: buffers are built with a logger", 1)
-	c.Rule(O1, "bookkeeping released with the topic", 2)
+	c.Rule(O1, "bookkeeping released with the topic", 1)
 	c.Rule(O2, "bookkeeping entered only together with a buffered message", 1)
-	c.Rule(D1, "no comparison mixes clock domains", 2)
-	c.Rule(A1, "GC guard cannot disable collection; lastGC set to the epoch read", 2)
+	c.Rule(D1, "no comparison mixes clock domains", 1)
+	c.Rule(A1, "GC guard cannot disable collection; lastGC set to the epoch read", 1)
 	fSource := m.Field(PkgTypes, "IncMessage", "Source")
 
 	// ------------------------------------------------------------------ G1
@@ -251,7 +251,7 @@ func checkC15(c *Ctx) {
 			if !ok {
 				continue
 			}
-			if p, ok := a.Type().(*types.Pointer); !ok || !isNamed(p.Elem(), PkgMsg, "storedMessages") {
+			if p, ok := a.Type().(*types.Pointer); !ok || !m.isNamedA(p.Elem(), PkgMsg, "storedMessages") {
 				continue
 			}
 			nAlloc++
@@ -361,11 +361,17 @@ func checkC15(c *Ctx) {
 	}
 
 	// ------------------------------------------------------------------ A1
-	callMark := staticCallsTo(b.fns, b.mark)
+	marks, _ := b.gcEvents()
+	var callMark []ssa.Instruction
+	for _, e := range marks {
+		if at := b.liftToGC(e); at != nil {
+			callMark = append(callMark, at)
+		}
+	}
 	okGuard := false
 	whyG := "no guard on the epochs elapsed since the last collection"
 	for _, cm := range callMark {
-		for _, f := range FactsAt(cm.(ssa.Instruction)) {
+		for _, f := range FactsAt(cm) {
 			if f.Op == 0 {
 				continue
 			}
